@@ -16,6 +16,7 @@ import (
 func c03Bodies(maxLen int) [][]EngOp {
 	// "scan" = open an iterator inside the transaction and compare it with the transaction's own view at that point
 	base := []EngOp{{Kind: "put", Key: "a"}, {Kind: "put", Key: "b"}, {Kind: "del", Key: "a"}, {Kind: "del", Key: "b"}, {Kind: "scan"},
+		{Kind: "put", Key: "b", Val: "<empty>"}, // an empty (non-nil) value is a value, not a deletion
 		{Kind: "put", Key: "a", Val: "<same>"}} // writes the committed value of a back (after a delete or overwrite in the same body)
 	var out [][]EngOp
 	var rec func(cur []EngOp)
@@ -284,7 +285,7 @@ func init() {
 	fw.Register(&fw.Check{
 		ID:    "C03",
 		Level: "model_checking",
-		Rule: "(1) programs: every transaction body of <=3 (4 thorough) operations {put, delete of 2 keys, put of the value a key already has in the committed state, scan inside the transaction} (repeats: last wins) x {commit, rollback, abandon} x 2 pre-states x {as is, reopen, write+reopen}, caller buffers overwritten after every tx.Put/Delete; batch shapes 1, 3, 3x30 KiB (beyond the log buffer), a batch with an entry larger than a record (must fail or apply completely), empty value, commit on a closed engine; oracle: gets + scan = model now and after reopen. " +
+		Rule: "(1) programs: every transaction body of <=3 (4 thorough) operations {put, delete of 2 keys, put of an empty value, put of the value a key already has in the committed state, scan inside the transaction} (repeats: last wins) x {commit, rollback, abandon} x 2 pre-states x {as is, reopen, write+reopen}, caller buffers overwritten after every tx.Put/Delete; batch shapes 1, 3, 3x30 KiB (beyond the log buffer), a batch with an entry larger than a record (must fail or apply completely), empty value, commit on a closed engine; oracle: gets + scan = model now and after reopen. " +
 			"(2) crash points: every call-log prefix and torn write inside a commit of 1/2/3/3x30KiB entries (and inside the write that follows it), recovered state must hold all or none of the transaction. (3) schedules: committer vs Get(a);Get(b), Get(b);Get(a), a read-only transaction, a scan - all interleavings up to the deviation bound with happens-before caching; oracle: no observer sees a strict subset. Non-trivial = cases in which a transaction interacts with earlier state / cuts inside the commit / executions with a cross-thread conflict",
 		Assumptions: []string{"process-death crash model", "SC interleavings of visible operations"},
 		Units: func(tier string) []string {
